@@ -8,10 +8,14 @@ package dirreader
 // rdgood(r): bytes of the records returned so far (the unterminated tail is never part of it).
 
 // LogName(n): n is the live log or a rotation "audit.log.N" with N >= 1 in canonical decimal.
-//@ pred LogName(n) := n == "audit.log" || (prefixof("audit.log.", n) && inre(substr(n, 10, len(n) - 10), "[1-9][0-9]*"))
+//@ pred LogName(n) := n == "audit.log" || (prefixof("audit.log.", n) && inre(substr(n, 10, len(n) - 10), "[1-9][0-9]*") && len(n) <= 28)
 // Age(n): 0 for the live log, N for audit.log.N (larger = older).
 //@ pred Age(n) := ite(n == "audit.log", 0, atoi(substr(n, 10, len(n) - 10)))
 //@ pred Keep(e) := !isdir(e) && prefixof("audit.log", dirname(e))
+
+//@ func logAge
+//@   modifies nothing
+//@   ensures[age] LogName(name) ==> result == Age(name)
 
 //@ func sortLogNamesOldToNew
 //@   requires forall k int :: 0 <= k && k < len(dirEntries) ==> dirEntries[k] != nil && (Keep(dirEntries[k]) ==> LogName(dirname(dirEntries[k])))
